@@ -217,10 +217,21 @@ def _mul_broadcast_block(tr, stmts):
             if isinstance(n, ast.Name) and n.id in arrs: raise Refuse('_mul_broadcast: array used other than through .shape/.size/broadcast_to')
     return new, lambda env: V([env['a_bc'], env['a_shape'], env['a_offset'], env['b_bc'], env['b_shape'], env['b_offset']])
 
+def _mul_broadcast_block_z(tr, stmts):
+    """the same with shapes that may be `()`: a shape enters as the triple (ndim, d0, d1) with `()` encoded as (0, 1, 1) and a 2-D
+    shape as (2, d0, d1) — two shapes are equal as Python tuples iff their triples are — through the attribute `shape` of the
+    parameters A / B (kind ('vec', 3))"""
+    new, final = _mul_broadcast_block(tr, stmts)
+    return ast.parse('a_shape = A.shape\nb_shape = B.shape').body + new, final
+
+_SHP3 = ('attr', {'shape': ('vec', 3)})
 FIELDBROADCAST = {
     '_mul_broadcast': {'lean_name': 'mulBroadcast', 'block': _mul_broadcast_block,
                        'params': [('a_shape', 'pair'), ('a_size', 'int'), ('a_offset', 'pair'),
                                   ('b_shape', 'pair'), ('b_size', 'int'), ('b_offset', 'pair')]},
+    '_mul_broadcast#nd': {'py_name': '_mul_broadcast', 'lean_name': 'mulBroadcastZ', 'block': _mul_broadcast_block_z,
+                          'params': [('A', _SHP3), ('a_size', 'int'), ('a_offset', 'pair'),
+                                     ('B', _SHP3), ('b_size', 'int'), ('b_offset', 'pair')]},
 }
 
 # ------------------------------------------------------------------------------------------------ Field._mul_array
